@@ -15,8 +15,11 @@ Record obs : Type := mkObs {
   ob_fields : list ((name * nat) * list ver);    (* every injection point of every component, by (rank, index) *)
   ob_lookups : list ltoken;                      (* GetComponentByName of each name in w_lookups, in order *)
   ob_logafter : list event;                      (* events caused by those lookups *)
-  ob_ops : option (list rop * list rop)          (* calls recorded on the factory's real registry (IsSingletonCurrentlyInCreation
+  ob_ops : option (list rop * list rop);         (* calls recorded on the factory's real registry (IsSingletonCurrentlyInCreation
                                                     left out): during the start / during the lookups; None = not traced *)
+  ob_bulk : option (list ltoken)                 (* Factory.GetComponents() issued after the lookups: every component in name
+                                                    order, or [LTErr] / [LTPanic]; None = not issued (the model issues it
+                                                    exactly when the observation has it) *)
 }.
 
 Record wcase : Type := mkW {
@@ -106,6 +109,13 @@ Definition rop_eqb (a b : rop) : bool :=
    (Model/FactoryX.v).  Without extras it is Model/Factory.v's [run] and Model/FactoryTrace.v's history:
    Proofs/FactoryXProofs.v run_xt_conservative, Proofs/FactoryTraceProofs.v run_erase (restated for this function
    in Corr/WiringFacts.v model_obs_plain). *)
+Definition bulk_tokens (r : res (list ver)) : list ltoken :=
+  match r with
+  | Ok vs => map LTVer vs
+  | Fail FPanic _ => [LTPanic]
+  | Fail _ _ => [LTErr]
+  end.
+
 Definition model_obs (vt : variant) (c : wcase) : obs :=
   let s := w_scn c in
   let x := w_x c in
@@ -119,10 +129,17 @@ Definition model_obs (vt : variant) (c : wcase) : obs :=
   match oc with
   | OOk | OErr =>
     let '(o2, (st2, outs)) := lookups_core_xt vt (normalise vt s) x (w_lookups c) st in
+    let '(o3, (st3, bulk)) :=
+      match ob_bulk (w_obs c) with
+      | Some _ => let '(o3, (st3, b)) := bulk_core_xt vt (normalise vt s) x (names_of (s_pop s)) st2 in
+                  (o3, (st3, Some (bulk_tokens b)))
+      | None => ([], (st2, None))
+      end in
     mkObs oc (rev (log st)) (fields_obs s x st) (map ltoken_of outs)
-          (rev (firstn (length (log st2) - length (log st)) (log st2)))
-          (Some (o1, match oc with OOk => o2 | _ => [] end))
-  | _ => mkObs oc (rev (log st)) (fields_obs s x st) [] [] (Some (o1, []))
+          (rev (firstn (length (log st3) - length (log st)) (log st3)))
+          (Some (o1, match oc with OOk => o2 ++ o3 | _ => [] end))
+          bulk
+  | _ => mkObs oc (rev (log st)) (fields_obs s x st) [] [] (Some (o1, [])) None
   end.
 
 (* a = model, b = implementation *)
@@ -137,6 +154,13 @@ Definition ops_eqb (a b : obs) : bool :=
   | _, _ => true
   end.
 
+Definition bulk_eqb (a b : option (list ltoken)) : bool :=
+  match a, b with
+  | Some x, Some y => list_eqb ltoken_eqb x y
+  | None, _ => true          (* the model issues the bulk lookup exactly when the observation has one *)
+  | Some _, None => false
+  end.
+
 Definition obs_eqb (a b : obs) : bool :=
   outcome_eqb (ob_outcome a) (ob_outcome b)
   && list_eqb event_eqb (ob_log a) (ob_log b)
@@ -146,6 +170,7 @@ Definition obs_eqb (a b : obs) : bool :=
      | OOk => list_eqb field_eqb (ob_fields a) (ob_fields b)
               && list_eqb ltoken_eqb (ob_lookups a) (ob_lookups b)
               && list_eqb event_eqb (ob_logafter a) (ob_logafter b)
+              && bulk_eqb (ob_bulk a) (ob_bulk b)
      end.
 
 (* Lookups after a FAILED start retry creations on the state the failed attempt left behind (stored Injects,
@@ -155,6 +180,7 @@ Definition obs_eqb (a b : obs) : bool :=
 Definition failed_lookups_eqb (a b : obs) : bool :=
   match ob_outcome a with
   | OErr => list_eqb ltoken_eqb (ob_lookups a) (ob_lookups b) && list_eqb event_eqb (ob_logafter a) (ob_logafter b)
+            && bulk_eqb (ob_bulk a) (ob_bulk b)
   | _ => true
   end.
 
